@@ -8,6 +8,8 @@ From LLIR Require Model.DecRead.
 Import ListNotations.
 Local Open Scope list_scope.
 From LLIR Require Import Lib.Bytes Lib.Radix Model.Natsort Model.Assemble Model.Writer Gen.Enums Model.EnumModel Model.IntLit Model.Enc Model.Types Model.TypeString Model.Gep Model.ResultType Model.Numbering Model.MetadataIDs Model.Skeleton Model.History Model.FloatBits Model.FloatX87 Model.FloatPPC Model.Users.
+(* after the models above: extraction renames the constructors that clash with earlier ones (tobj's TFunc) *)
+From LLIR Require Proofs.SkeletonProofs Proofs.PlaceholderProofs.
 
 Definition byte_of_N_total (n : N) : byte := match Byte.of_N n with Some b => b | None => x00 end.
 (* C19: run the chunks against a writer failing after k bytes: (size, failed?, delivered, calls) *)
@@ -105,6 +107,34 @@ Definition sk_name (s : bytes) : Skeleton.ident := Skeleton.IName s.
 Definition sk_num (z : Z) : Skeleton.ident := Skeleton.INum z.
 Definition sk_ns (k : nat) : ns := match k with 0 => NType | 1 => NComdat | 2 => NGlobal | 3 => NAttr | _ => NMeta end.
 Definition sk_kind (k : nat) (target : Skeleton.ident) : tkind := match k with 0 => KPlain | 1 => KOpaque | _ => Skeleton.KAlias target end.
+(* C04, placeholders and parent links (Proofs/PlaceholderProofs.v): the two-phase translation with the identity
+   oracles, or with the reversing oracle for the order o2 in which the bodies are translated; the outcome
+   crosses as (code, observation), an observed entity as (is a function, parent flag, blocks) where a
+   global variable is (false, false, [(false, constants of its initialiser)]) *)
+Definition ph_site (f b : Skeleton.ident) : PlaceholderProofs.site := (f, b).
+Definition ph_var (i : Skeleton.ident) (init : list PlaceholderProofs.site) : PlaceholderProofs.atop :=
+  {| PlaceholderProofs.a_id := i; PlaceholderProofs.a_body := PlaceholderProofs.AVar init |}.
+Definition ph_decl (i : Skeleton.ident) : PlaceholderProofs.atop :=
+  {| PlaceholderProofs.a_id := i; PlaceholderProofs.a_body := PlaceholderProofs.ADecl |}.
+Definition ph_def (i : Skeleton.ident) (bl : list (Skeleton.ident * list PlaceholderProofs.site)) : PlaceholderProofs.atop :=
+  {| PlaceholderProofs.a_id := i; PlaceholderProofs.a_body := PlaceholderProofs.ADef bl |}.
+Definition ph_const := option (nat * nat).
+Definition ph_entity := option (bool * bool * list (bool * list ph_const)).
+Definition ph_obs_flat (o : option PlaceholderProofs.obs) : ph_entity :=
+  match o with
+  | None => None
+  | Some (PlaceholderProofs.ObsVar init) => Some (false, false, [(false, init)])
+  | Some (PlaceholderProofs.ObsFunc p bl) => Some (true, p, bl)
+  end.
+Definition ph_run (rev2 : bool) (tops : list PlaceholderProofs.atop) (late : list PlaceholderProofs.site)
+  : nat * (list ph_entity * list ph_const) :=
+  match PlaceholderProofs.run SkeletonProofs.id_oracle
+          (if rev2 then PlaceholderProofs.rev_oracle else SkeletonProofs.id_oracle)
+          {| PlaceholderProofs.a_tops := tops; PlaceholderProofs.a_late := late |} with
+  | Skeleton.Ok (t, l) => (0, (map ph_obs_flat t, l))
+  | Skeleton.Err => (1, (nil, nil))
+  | Skeleton.Panic => (2, (nil, nil))
+  end.
 (* C14 *)
 Definition h_insert (p : nat) (x : item) : op := Insert p x.
 Definition h_remove (p : nat) : op := Remove p.
@@ -150,5 +180,5 @@ Extraction "model.ml" byte_of_N_total Byte.to_N
   Enc.global_name Enc.local_name Enc.label_name Enc.type_name Enc.comdat_name Enc.metadata_name Enc.escape_ident Enc.escape_string Enc.quote Enc.unescape
   Enc.global_id Enc.local_id Enc.label_id c11_dec_global c11_dec_local c11_dec_label c11_dec_type c11_dec_comdat c11_dec_metadata
   TypeString.ty_string TypeString.equal_go
-  gep_result gep_inst gep_parse gep_expr mk_index c06_ir c06_asm mk_item c08_assign Numbering.it_id mk_gent c08_print_after_parse c17_assign sk_translate sk_translate_rev mk_top mk_use sk_name sk_num sk_ns sk_kind h_insert h_remove h_rename h_print h_query c14_final Numbering.it_named
+  gep_result gep_inst gep_parse gep_expr mk_index c06_ir c06_asm mk_item c08_assign Numbering.it_id mk_gent c08_print_after_parse c17_assign sk_translate sk_translate_rev ph_site ph_var ph_decl ph_def ph_run mk_top mk_use sk_name sk_num sk_ns sk_kind h_insert h_remove h_rename h_print h_query c14_final Numbering.it_named
   c15_succs c10_dec_ieee c10_rt_ieee c10_dec80 c10_rt80 c10_dec_ppc c10_rt_ppc hex_of_Z c10_dec_read.
